@@ -731,7 +731,42 @@ func (c *Ctx) ruleFreeLists(rule string) {
 						empty[edgeKey{iff.Block(), 0}] = true
 					}
 				})
-				_, again := x.pathExistsFlags(get, head, func(in ssa.Instruction) bool { return in == head }, empty, func(in ssa.Instruction) bool { return !l.Blocks[in.Block()] })
+				// an element of a free list is never nil (wrappers are made by the constructor only, W1, and
+				// putGengineLocked reads gw.addition before it appends gw): the nil edge of a test of a list
+				// head -- `if gw := gp.takeFree(); gw != nil` with takeFree inlined -- is not a way on
+				avoid := map[edgeKey]bool{}
+				for k := range empty {
+					avoid[k] = true
+				}
+				eachInstr(get, func(in ssa.Instruction) {
+					iff, isIf := in.(*ssa.If)
+					if !isIf || !l.Blocks[iff.Block()] {
+						return
+					}
+					v, neq, isNilTest := nilCheck(iff.Cond)
+					if !isNilTest {
+						return
+					}
+					ld, isLd := x.Origin(v).(*ssa.UnOp)
+					if !isLd || ld.Op != token.MUL {
+						return
+					}
+					ia, isIA := ld.X.(*ssa.IndexAddr)
+					if !isIA {
+						return
+					}
+					_, f1 := x.isFieldLoad(ia.X, "GenginePool", "freeGengines")
+					_, f2 := x.isFieldLoad(ia.X, "GenginePool", "additionGengines")
+					if !f1 && !f2 {
+						return
+					}
+					if neq {
+						avoid[edgeKey{iff.Block(), 1}] = true // v != nil is false
+					} else {
+						avoid[edgeKey{iff.Block(), 0}] = true // v == nil is true
+					}
+				})
+				_, again := x.pathExistsFlags(get, head, func(in ssa.Instruction) bool { return in == head }, avoid, func(in ssa.Instruction) bool { return !l.Blocks[in.Block()] })
 				c.Check(rule, "getGengine#retries-only-after-"+lname+"-was-empty", len(empty) > 0 && !again, head.Pos(), "a pass of the wait loop can end without having found %s empty (%d test(s) of its length in the loop): a request could keep waiting while an instance is free", lname, len(empty))
 			}
 		}
